@@ -386,6 +386,38 @@ func equalObject(left, right Object) bool {
 		return len(leftSet.Value) == len(rightSet.Value) && leftSet.Contains(rightSet) && rightSet.Contains(leftSet)
 	}
 
+	// lists and maps are compared member by member, so that a set nested in them is compared as a set
+	if leftList, ok := left.(*List); ok {
+		rightList, _ := right.(*List)
+		if len(leftList.Value) != len(rightList.Value) {
+			return false
+		}
+
+		for i := range leftList.Value {
+			if !equalObject(leftList.Value[i], rightList.Value[i]) {
+				return false
+			}
+		}
+
+		return true
+	}
+
+	if leftMap, ok := left.(*Map); ok {
+		rightMap, _ := right.(*Map)
+		if len(leftMap.Value) != len(rightMap.Value) {
+			return false
+		}
+
+		for name, member := range leftMap.Value {
+			other, found := rightMap.Value[name]
+			if !found || !equalObject(member, other) {
+				return false
+			}
+		}
+
+		return true
+	}
+
 	return reflect.DeepEqual(left, right)
 }
 
